@@ -250,6 +250,17 @@ def monitorOp (prop : String) (seen : Seen) (v : OpView) (next : Option OpView) 
           else if (impl.filter fun t => tokClass t = "o" && (t.splitOn ":").getD 1 "" = "l").any (fun t => (t.splitOn ":").getD 2 "" != hexOfBytes want) then some "observer-listing-text-differs"
           else none
       | none => none
+    else if prop = "C05" && op.name = "put" && retPositive ret = some true then
+      -- ASCII upload: what the peer received is the conversion of this call's own source - nothing carried over from
+      -- an earlier transfer of the same client
+      match parsePayload (op.args.getD 2 ""), findTok v.summary "peer:" with
+      | some data, some pk =>
+        let f := pk.splitOn ":"
+        let want := if seen.ascii then Spec.ulSpec data else data
+        if f.getD 3 "" != toString want.length || f.getD 4 "" != toString (fnv64 want).toNat then
+          some "ascii-upload-bytes-differ"
+        else none
+      | _, _ => none
     else none
   | "C04" =>
     if !returned || cancelledOp op || op.name != "put" then none
